@@ -16,6 +16,19 @@ CLAIMS = {
         'the object passed through a pointer-to-non-const parameter'),
 }
 
+CLAIMS['C12'] = (
+    'call-site error-discipline analysis: path-sensitive abstract interpretation (sign/class domain) of every '
+    'caller of the I/O-failure closure; -Werror=unused-result compile-fail witness',
+    'static analysis: for each of ~170 call sites whose callee can fail because of read/write/lseek/ftruncate, '
+    'follows the failure classes of the callee\'s return convention (and short counts of read()/write()) through '
+    'the caller on all CFG paths and shows they cannot reach a success exit; callee-side convention check; '
+    'compile-fail witness for dropped must-check results. Decides the error-propagation mechanism of C12 in '
+    'library and tools, not faults inside dependencies, close() results or deferred ENOSPC.',
+    'trusted: clang 14 front end; frozen return-convention table (checked against inferred return classes); '
+    'external summaries of read/write/lseek/ftruncate; value classes {-1,<-1,0,1,>1}')
+
+FIX_COMMITS = ['b06bb6c', 'cac4df4', 'cfca702', 'e539799', '9a0c13d', '199957c']
+
 # properties without a check yet / declined, with reason
 NOT_APPLICABLE = {
 }
@@ -53,7 +66,7 @@ def build():
             'enable': 'none: static analysis needs no source hooks; checks parse /repo with the real build flags '
                       '(-std=gnu11 -D_FILE_OFFSET_BITS=64 -DZCHUNK_ZSTD -DZCHUNK_OPENSSL)',
             'baseline_off_cmd': 'ninja -C /repo/_build && meson test -C /repo/_build',
-            'source_commits': [],
+            'source_commits': FIX_COMMITS,
             'add_only': True,
         },
         'engines': [{
